@@ -144,3 +144,129 @@ Definition run_mode (m : mode) (code : Z) (sizes : list nat) (body : reader) : a
       {| o_err := s_err s; o_bytes := bytes_of s; o_stream := []; o_stream_end := None;
          o_again := []; o_again_ok := true; o_out := out |}
   end.
+
+(* ====================================================================== *)
+(* Round 2: the API layer in more detail                                  *)
+(* ====================================================================== *)
+(* response.go ToBytes with Client.SetResponseBodyTransformer, Bytes/String/ToString (views of
+   the cache), UnmarshalJson (ToBytes, then the unmarshaller gets exactly those bytes);
+   client.go roundTrip + middleware.go parseResponseBody (SetSuccessResult: unmarshalBody ->
+   ToBytes fills the cache before handleDownload) + handleDownload with an output writer
+   that may fail after accepting some bytes, and the download callback wrapper
+   (callbackReader: a pass-through that reports the total once the stream hit io.EOF).
+   Any sequence of caller operations afterwards. *)
+
+(* ToBytes and handleDownload close the body they drained: a later Read fails ("read on closed
+   response body", errClosedResponseBody, a cancelled QUIC stream) *)
+Definition closed_reader : reader := {| rd_rem := []; rd_end := BFail |}.
+
+(* the transformer hook: None = it returned an error *)
+Definition transformer := bytes -> option bytes.
+
+Definition to_bytes_t (tf : option transformer) (s : rstate) : bytes * bool * rstate :=
+  if s_err s then ([], false, s)
+  else match s_cache s with
+       | Some b => (b, true, s)
+       | None =>
+           let '(d, ok, _) := read_all (s_body s) in
+           let r' := closed_reader in
+           if ok then
+             match tf with
+             | None => (d, true, {| s_err := false; s_cache := Some d; s_body := r' |})
+             | Some f =>
+                 match f d with
+                 | Some d' => (d', true, {| s_err := false; s_cache := Some d'; s_body := r' |})
+                 | None => ([], false, {| s_err := true; s_cache := None; s_body := r' |})
+                 end
+             end
+           else (d, false, {| s_err := true; s_cache := Some d; s_body := r' |})
+       end.
+
+Record cfg := {
+  c_disable_auto : bool;          (* DisableAutoReadResponse *)
+  c_save : bool;                  (* SetOutput / SetOutputFile *)
+  c_cap : option nat;             (* the output writer fails after accepting this many bytes *)
+  c_callback : bool;              (* SetDownloadCallback (with SetOutput) *)
+  c_result : bool;                (* SetSuccessResult: parseResponseBody unmarshals the body *)
+  c_tf : option transformer
+}.
+
+(* io.Copy into a writer that accepts at most [cap] bytes: what it received, no error *)
+Definition copy_capped (cap : option nat) (r : reader) : bytes * bool :=
+  match cap with
+  | None => (rd_rem r, bend_eqb (rd_end r) BEof)
+  | Some n => if length (rd_rem r) <=? n then (rd_rem r, bend_eqb (rd_end r) BEof)
+              else (firstn n (rd_rem r), false)
+  end.
+
+Record done := {
+  a_state : rstate;          (* the Response handed to the caller *)
+  a_out : bytes;             (* what the output writer / file received *)
+  a_callbacks : list nat;    (* DownloadedSize values reported (interval = never: only the final one) *)
+  a_unmarshal : option bytes (* bytes handed to the unmarshaller by parseResponseBody *)
+}.
+
+Definition success_state (code : Z) : bool := (199 <? code)%Z && (code <? 300)%Z.
+
+Definition finish (c : cfg) (code : Z) (body : reader) : done :=
+  let s0 := {| s_err := false; s_cache := None; s_body := body |} in
+  (* auto-read + restored Body *)
+  let s1 :=
+    if negb (c_disable_auto c) && negb (c_save c) && (199 <? code)%Z then
+      let '(_, _, s) := to_bytes_t (c_tf c) s0 in
+      {| s_err := s_err s; s_cache := s_cache s;
+         s_body := mem_reader (match s_cache s with Some b => b | None => [] end) |}
+    else s0 in
+  (* parseResponseBody *)
+  let '(s2, um) :=
+    if c_result c && success_state code && negb (code =? 204)%Z then
+      let '(b, ok, s) := to_bytes_t (c_tf c) s1 in (s, if ok then Some b else None)
+    else (s1, None) in
+  (* did the transport body reach io.EOF through the callback wrapper? *)
+  let total := length (rd_rem body) in
+  let eof_seen (through_all : bool) :=
+    through_all && bend_eqb (rd_end body) BEof && negb (total =? 0) in
+  if c_save c then
+    match s_cache s2 with
+    | Some b =>   (* already read (by parseResponseBody): copy from the cache *)
+        let '(w, ok) := copy_capped (c_cap c) (mem_reader b) in
+        {| a_state := {| s_err := s_err s2 || negb ok; s_cache := s_cache s2; s_body := s_body s2 |};
+           a_out := w;
+           a_callbacks := if c_callback c && eof_seen true then [total] else [];
+           a_unmarshal := um |}
+    | None =>
+        let '(w, ok) := copy_capped (c_cap c) (s_body s2) in
+        {| a_state := {| s_err := s_err s2 || negb ok; s_cache := None; s_body := closed_reader |};
+           a_out := w;
+           a_callbacks := if c_callback c && negb (s_err s2) &&
+                             eof_seen (match c_cap c with None => true | Some n => total <=? n end)
+                          then [total] else [];
+           a_unmarshal := um |}
+    end
+  else {| a_state := s2; a_out := []; a_callbacks := []; a_unmarshal := um |}.
+
+(* what the caller does with the Response afterwards, any number of times, in any order *)
+Inductive op :=
+| OpBytes                       (* Bytes() / String() *)
+| OpToBytes                     (* ToBytes() / ToString() *)
+| OpRead (sizes : list nat)     (* a Read loop on Response.Body with these buffer sizes *)
+| OpUnmarshal.                  (* UnmarshalJson *)
+
+Inductive op_out :=
+| OutBytes (b : option bytes)
+| OutToBytes (b : bytes) (ok : bool)
+| OutRead (d : bytes) (e : option bend)
+| OutUnmarshal (input : option bytes).   (* the bytes handed to the unmarshaller; None = error first *)
+
+Fixpoint run_ops (tf : option transformer) (ops : list op) (s : rstate) : list op_out :=
+  match ops with
+  | [] => []
+  | OpBytes :: r => OutBytes (s_cache s) :: run_ops tf r s
+  | OpToBytes :: r => let '(b, ok, s') := to_bytes_t tf s in OutToBytes b ok :: run_ops tf r s'
+  | OpRead sizes :: r =>
+      let '(d, e, rd') := drain sizes (s_body s) in
+      OutRead d e :: run_ops tf r {| s_err := s_err s; s_cache := s_cache s; s_body := rd' |}
+  | OpUnmarshal :: r =>
+      let '(b, ok, s') := to_bytes_t tf s in
+      OutUnmarshal (if ok then Some b else None) :: run_ops tf r s'
+  end.
